@@ -19,6 +19,15 @@ func (fc *FnCtx) externCall(st *State, instr ssa.CallInstruction, callee *ssa.Fu
 	if callee.Origin() != nil {
 		full = callee.Origin().String()
 	}
+	// a method of a dependency called on a nil pointer receiver dereferences it
+	// (time.Timer, sync.*, net.Dialer ...): the receiver must be non-nil
+	if recv := callee.Signature.Recv(); recv != nil && isPointer(recv.Type()) && len(args) > 0 && instr != nil {
+		if r := args[0]; len(r.T) == 1 && r.one() != "0" && !isNum(r.one()) {
+			fc.safety(st, "nil-receiver", instr.Pos(), callee.Name(), mkNot(mkEq(r.one(), "0")))
+		} else if len(r.T) == 1 && r.one() == "0" {
+			fc.safety(st, "nil-receiver", instr.Pos(), callee.Name(), "false")
+		}
+	}
 	if ex := fc.e.spec.Externs[full]; ex != nil {
 		var cc *ssa.CallCommon
 		if instr != nil {
